@@ -20,6 +20,7 @@ from ...avps.etsi_3gpp.ts_129_229 import VisitedNetworkIdentifierAVP
 
 from ...avps.etsi_3gpp.ts_129_272 import ServiceSelectionAVP
 from ...avps.etsi_3gpp.ts_129_272 import ApnConfigurationAVP
+from ...avps.etsi_3gpp.ts_129_272 import TerminalInformationAVP
 
 from ...avps.etsi_3gpp.ts_129_273 import MobileNodeIdentifierAVP
 from ...avps.etsi_3gpp.ts_129_273 import Mip6FeatureVectorAVP
